@@ -204,7 +204,7 @@ Fixpoint run_multi (m : mstats (list Z) Z sres) (ops : list sop)
 (* a compiled MultiStatistics record as keyword arguments of Logbook.record *)
 Definition sres_z (r : sres) : Z := match r with RInt z => z | _ => 0 end.
 Definition mrec_infos (gen : list (name * Z)) (m : list (name * list (name * sres))) : dict :=
-  inject gen ++ map (fun kr => (fst kr, VDict (map (fun nr => (fst nr, VInt (sres_z (snd nr)))) (snd kr)))) m.
+  compiled_infos gen (map (fun kr => (fst kr, map (fun nr => (fst nr, sres_z (snd nr))) (snd kr))) m).
 
 (* the way the algorithms use them: for each generation, logbook.record(id=g, **mstats.compile(pop_g)) *)
 Fixpoint run_gens (m : mstats (list Z) Z sres) (idname : name) (g : nat) (pops : list (list (list Z))) (s : state)
